@@ -597,12 +597,20 @@ type ShardCounts struct {
 	// UnusableDataShardCount is the number of parity shards that
 	// are unusable, i.e. missing or corrupt.
 	UnusableParityShardCount int
+
+	// RelocatableDataFileCount is the number of data files that
+	// are missing or don't match their expected contents even
+	// though none of their data shards is unusable, e.g. because
+	// their contents were shifted by inserted or removed bytes,
+	// or are found only in other files. Such files still need
+	// repair, but repairing them doesn't use up parity shards.
+	RelocatableDataFileCount int
 }
 
 // RepairNeeded returns whether repair is needed, i.e. whether
-// UnusableDataShardCount is non-zero.
+// UnusableDataShardCount or RelocatableDataFileCount is non-zero.
 func (fc ShardCounts) RepairNeeded() bool {
-	return fc.UnusableDataShardCount > 0
+	return fc.UnusableDataShardCount > 0 || fc.RelocatableDataFileCount > 0
 }
 
 // RepairPossible returns whether repair is possible i.e. whether
@@ -615,14 +623,20 @@ func (fc ShardCounts) RepairPossible() bool {
 func (d *Decoder) ShardCounts() ShardCounts {
 	usableDataShardCount := 0
 	unusableDataShardCount := 0
+	relocatableDataFileCount := 0
 
 	for _, info := range d.fileIntegrityInfos {
+		hasUnusableShard := false
 		for _, shardInfo := range info.shardInfos {
 			if shardInfo.data == nil {
 				unusableDataShardCount++
+				hasUnusableShard = true
 			} else {
 				usableDataShardCount++
 			}
+		}
+		if !hasUnusableShard && !info.ok(d.sliceByteCount) {
+			relocatableDataFileCount++
 		}
 	}
 
@@ -642,6 +656,7 @@ func (d *Decoder) ShardCounts() ShardCounts {
 		UnusableDataShardCount:   unusableDataShardCount,
 		UsableParityShardCount:   usableParityShardCount,
 		UnusableParityShardCount: unusableParityShardCount,
+		RelocatableDataFileCount: relocatableDataFileCount,
 	}
 }
 
